@@ -1,6 +1,7 @@
 ---------------------------- MODULE EstimationObs ----------------------------
 (* C19, implementation level.  One case = one state of Estimation.tla instantiated on the real code:                *)
-(*   s     the abstract structure [core, red, dup, ord] (the spec derives the table, the requirement, the z layout)  *)
+(*   s     the abstract structure [core, red, dup, ord, wv] (the spec derives the table, the requirement, the z layout)  *)
+(*   wind  rated winding voltages of the transformer the harness built, per mille of the connected buses' vn_kv         *)
 (*   pf    results of runpp(tolerance_mva=1e-10) on the template; the measurement values are read from them          *)
 (*   est   estimate(net, init="flat", tolerance=1e-8) on the table Rows(Table(s)) created row by row                 *)
 (*   ref_ord / ref_red   the estimate of the same structure written in creation order / without redundancy          *)
@@ -56,6 +57,7 @@ AltOK(a) == (Req /\ a.acc /\ a.ok) => SameBus(a, C.pf)
 C19_AltAlgorithms == \A k \in DOMAIN C.alts : C.alts[k].alg \in GaussNewton => AltOK(C.alts[k])
 
 \* ---- conformance of the modelled aggregation (EstimationConfT3/T4.cfg; reported as divergence, never as violation) --------
+C19_Conf_Winding == C.wind = Wind(S.wv)
 C19_Conf_TableCreated == Bind(Table(S), LAMBDA tab : C.rows = Rows(tab))
 C19_Conf_ZLayout == C.z.avail => Bind(Table(S), LAMBDA tab : C.z.idx = ZIdx(tab))
 C19_Conf_ZWeights == C.z.avail => Bind(Table(S), LAMBDA tab : C.z.w4 = ZW4(tab))
